@@ -140,6 +140,19 @@ def check_case(ctx, out, desc, origin='random'):
     except Exception as e:
         out.spec_fail(canon(desc, 'raises', exc=gs.gen_tag(e)), f'transient simulation raises {type(e).__name__}: {e}', inp,
                       impl=dict(exception=repr(e)), desc=desc); return
+    for what, q, arg in (('potential', sol.get_potential, c10.UNKNOWN_NODE), ('voltage', sol.get_voltage, c10.UNKNOWN_ID),
+                         ('current', sol.get_current, c10.UNKNOWN_ID)):
+        try:
+            series = q(arg)[1]
+        except (KeyError, IndexError):
+            continue
+        except Exception as e:
+            out.spec_fail(dict(op='transient', symptom='unknown_query_wrong_error', what=what, exc=gs.gen_tag(e)),
+                          f'get_{what}({arg!r}) raises {type(e).__name__}', inp, desc=desc); return
+        out.spec_fail(dict(op='transient', symptom='unknown_query_no_error', what=what),
+                      f'TransientSolution.get_{what}({arg!r}) answers a query for an id that does not exist '
+                      f'(series of {float(np.max(np.abs(series)))}) instead of raising', inp, desc=desc)
+        return
     def fail(symptom, what, **kw):
         out.spec_fail(canon(desc, symptom), what, inp, impl=dict(A=A.tolist(), B=B.tolist(), sources=sources, **kw), desc=desc,
                       profiles={k: v.tolist() for k, v in prof.items()} if n <= 200 else None, n=n, h=h)
@@ -225,7 +238,15 @@ def check_case(ctx, out, desc, origin='random'):
         if 'A' in m:
             rows, keys = [], []
             for e in m['pot']:
-                rows.append([e['c'], e['d']]); keys.append(('pot', e['n']))
+                if 'ok' in e['c'] and 'ok' in e['d']:
+                    rows.append([e['c']['ok'], e['d']['ok']]); keys.append(('pot', e['n']))
+                else:
+                    try:
+                        sol.get_potential(e['n']); impl_unknown = 'ok'
+                    except Exception as ex:
+                        impl_unknown = gs.gen_tag(ex)
+                    if impl_unknown != e['c'].get('err', e['d'].get('err')):
+                        out.disagree('ss_transient.get_potential', inp, impl_unknown, e, node=e['n'])
             for e in m['el']:
                 if 'ok' in e['vc'] and 'ok' in e['ic']:
                     rows.append([e['vc']['ok'], e['vd']['ok']]); keys.append(('v', e['id']))
@@ -239,9 +260,8 @@ def check_case(ctx, out, desc, origin='random'):
                     out.disagree('ss_transient._u', inp, U[:, :T].tolist(), gs.model_mat(r['U']))
                 if any(core.cfloat(z) != 0 for z in r['x0']) or len(r['x0']) != X.shape[0]:
                     out.disagree('ss_transient.x0', inp, 'zeros', r['x0'])
-                unknown = np.asarray(sol.get_potential(c10.UNKNOWN_NODE)[1])
                 for key, y in zip(keys, r['y']):
-                    series = {'pot': pot, 'v': vol, 'i': cur}[key[0]].get(key[1], unknown)
+                    series = {'pot': pot, 'v': vol, 'i': cur}[key[0]][key[1]]
                     if not gs.vec_agree(series[:T], y, 1e-9 * scale):
                         out.disagree('ss_transient.' + key[0], inp, series[:T].tolist(), [core.cfloat(z) for z in y], id=key[1])
                         break
